@@ -18,13 +18,16 @@ NODE_U = {
 EDGE_U = {
     "ints": [0, 1, 2, 3, 5, 8, -1, -2, 700],
     "strs": ["e0", "e1", "x", "0", "1", "7"],
-    "mixed": [0, 1, "x", "1", 2.0, (0, 1), 5, 7],
+    "mixed": [0, 1, "x", "1", 2.0, (0, 1), 5, 7, 9007199254740992.0],  # 2.0**53: x + 1 == x
     "wide": [0, 1, 2, 3, 5, 8, 11, 13, 21],
     "large": list(range(0, 120, 3)),
 }
 # int nodes with string edge IDs and the other way round; the string forms overlap ("1" / 1)
 NODE_U["cross_is"], EDGE_U["cross_is"] = [0, 1, 2, 3, 4, 7], ["0", "1", "2", "e0", "x", "7"]
 NODE_U["cross_si"], EDGE_U["cross_si"] = ["a", "b", "1", "2", "7", "zz"], [0, 1, 2, 3, 5, 7]
+# int nodes (one beyond 2**53) with float edge IDs and the reverse: two numeric dtypes side by side
+NODE_U["cross_if"], EDGE_U["cross_if"] = [0, 1, 2, 3, 2 ** 53 + 1, 7], [0.5, 1.5, 2.0, 3.25, 8.0, 0.25]
+NODE_U["cross_fi"], EDGE_U["cross_fi"] = [0.5, 1.5, 2.0, 3.25, 8.0, 0.25], [0, 1, 2, 3, 2 ** 53 + 1, 7]
 try:
     import numpy as _np
 
@@ -35,6 +38,8 @@ except Exception:  # pragma: no cover
 ATTR_KEYS = ["color", "w", "label", "tag", "weight"]
 ATTR_VALS = [0, 1, 2, "red", "blue", 0.5, None, True]
 FW_VALS = [0.1, 0.2, 0.3, 0.3, 0.7, 1e12, 1e12 + 1]  # sums such as 0.1 + 0.2 are not exactly 0.3
+POSITIONAL_OPS = {"add_edge", "add_simplex", "add_weighted_edges_from", "add_weighted_simplices_from",
+                  "add_simplices_from", "remove_node", "remove_nodes_from", "cleanup"}
 MTYPES = ["list", "list", "list", "tuple", "set", "frozenset"]
 
 
@@ -83,7 +88,7 @@ class Gen:
             x = self.r.choice(list(model.edges))
             if not (dh and isinstance(x, tuple)):
                 return x
-        if self.profile not in ("strs", "cross_is") and self.r.random() < 0.12:
+        if self.profile not in ("strs", "cross_is", "cross_if") and self.r.random() < 0.12:
             # an explicit ID just ahead of the largest integer ID: where the automatic counter is
             # about to arrive
             ints = [e for e in model.edges if type(e) is int]
@@ -96,6 +101,8 @@ class Gen:
     def members(self, model, lo=1, hi=4, p_existing=0.6):
         if self.profile == "large" and hi == 4 and model.kind != "SC":
             hi = 9
+        elif hi == 4 and self.cfg.get("max_members") and model.kind != "SC":
+            hi = self.cfg["max_members"]
         k = self.r.randint(lo, hi)
         out = []
         for _ in range(k):
@@ -179,6 +186,8 @@ class Gen:
             args["attr"].pop("weight", None)
         if fault is None and (args.get("mtype") == "iter" or args.get("stream") == "iter"):
             fault = {"kind": "oneshot"}
+        if op in POSITIONAL_OPS and self.r.random() < 0.3:
+            args["positional"] = True
         r = {"uid": self.next_uid(), "actor": actor, "op": op,
              "args": {k: enc(v) for k, v in args.items()}}
         if fault:
@@ -299,6 +308,12 @@ class Gen:
     def g_H_add_edge(self, name, m, op):
         mem = self.members(m, 0 if self.r.random() < 0.04 else 1, 4)
         idx = self.new_idx(m) if self.r.random() < self.cfg.get("explicit_idx_rate", 0.45) else None
+        if self.r.random() < 0.03 and self.profile != "large":
+            # the members are the network's own live view (H.add_edge(H.nodes) / H.add_edge(H.edges))
+            which = self.r.choice(["view_nodes", "view_edges"])
+            ids = list(m.nodes) if which == "view_nodes" else list(m.edges)
+            if ids and len(ids) <= 12 and not any(isinstance(x, tuple) for x in ids):
+                return self.rec(name, op, {"members": ids, "idx": idx, "attr": self.attr(single=True), "mtype": which})
         fault = self.maybe_fault(["none_member", "unhashable_member", "exotic_id"])
         return self.rec(name, op, {"members": mem, "idx": idx, "attr": self.attr(single=True),
                                    "mtype": self.mtype()}, fault)
@@ -356,7 +371,7 @@ class Gen:
         """the item whose attribute payload will make the call raise is stored under an ID just
         ahead of the largest integer ID (the ID bookkeeping of that item is then cut short)"""
         if fault and fault["kind"] == "attr_junk" and fmt == 4 and len(items) >= 2 and self.r.random() < 0.5 \
-                and self.profile not in ("strs", "cross_is"):
+                and self.profile not in ("strs", "cross_is", "cross_if"):
             i = 1 + fault.get("item", 0) % (len(items) - 1)
             ints = [e for e in m.edges if type(e) is int]
             items[i][1] = (max(ints) if ints else 0) + self.r.randint(1, 3)
@@ -367,6 +382,24 @@ class Gen:
         if self._shared(m, fmt, items):
             return self.rec(name, op, {"fmt": fmt, "items": items, "attr": self.attr(), "mtype": self.r.choice(["list", "set"]),
                                        "stream": "list", "share": True})
+        if fmt != 5 and len(items) >= 2 and self.r.random() < 0.04 and self.profile != "large" and m.nodes:
+            # one item (not the first) lists the network's own node view as its members: what the
+            # view shows when that item is reached (the nodes of the earlier items included)
+            j = self.r.randrange(1, len(items))
+            which = "view_edges" if fmt in (2, 4) and m.edges and self.r.random() < 0.5 else "view_nodes"
+            if which == "view_nodes":
+                sofar = list(m.nodes)
+                for it in items[:j]:
+                    sofar += [x for x in it[0] if x not in sofar]
+            else:
+                sofar = list(m.edges) + [it[1] for it in items[:j]]  # the edge IDs, as node labels
+            if len(sofar) <= 12 and not any(isinstance(x, tuple) for x in sofar) and \
+                    not any(it[1] is not None and it[1] in m.edges for it in items) and \
+                    len({repr(it[1]) for it in items if it[1] is not None}) == sum(it[1] is not None for it in items) and \
+                    all(it[0] for it in items):
+                items[j][0] = sofar
+                return self.rec(name, op, {"fmt": fmt, "items": items, "attr": self.attr(), "mtype": "list",
+                                           "stream": "list", "view_item": j, "view_which": which})
         fault = self.maybe_fault(["none_member", "unhashable_member", "dying", "empty_in_bulk", "attr_pairs",
                                   "attr_junk", "exotic_id"], len(items))
         self._junk_ahead(m, fmt, items, fault)
@@ -488,6 +521,13 @@ class Gen:
         if tail and self.r.random() < 0.25:
             head.append(tail[0]) if tail[0] not in head else None  # node in both tail and head
         idx = self.new_idx(m, dh=False) if self.r.random() < self.cfg.get("explicit_idx_rate", 0.45) else None
+        if self.r.random() < 0.03 and m.nodes and len(m.nodes) <= 12 and not any(isinstance(x, tuple) for x in m.nodes):
+            # tail or head is the network's own live node view; the other side may bring a new node
+            side = self.r.choice(["tail", "head"])
+            other = [x for x in (head if side == "tail" else tail) if not isinstance(x, tuple)]
+            args = {"tail": list(m.nodes) if side == "tail" else other, "head": list(m.nodes) if side == "head" else other,
+                    "idx": idx, "attr": self.attr(single=True), "mtype": "list", "outer": "tuple", "view_side": side}
+            return self.rec(name, op, args)
         fault = self.maybe_fault(["none_member", "unhashable_member", "exotic_id"])
         if fault:
             fault["item"] = self.r.randrange(2)
